@@ -377,10 +377,18 @@ func workerPoolRule(P *Program, R *Report) {
 					}
 				case *ssa.Call:
 					if isCallTo(x, "builtin:append") {
-						if _, isFV := rootOfAddr(x.Call.Args[0]).(*ssa.FreeVar); isFV {
+						base := x.Call.Args[0]
+						for k := 0; k < 10; k++ {
+							if sl, ok := base.(*ssa.Slice); ok {
+								base = sl.X
+								continue
+							}
+							break
+						}
+						if _, isFV := rootOfAddr(base).(*ssa.FreeVar); isFV {
 							badw = append(badw, "append to captured slice at "+P.Pos(x.Pos()))
 						}
-						if p, ok := x.Call.Args[0].(*ssa.Parameter); ok {
+						if p, ok := base.(*ssa.Parameter); ok {
 							badw = append(badw, "append to shared list parameter "+p.Name()+" at "+P.Pos(x.Pos()))
 						}
 					}
